@@ -1787,4 +1787,59 @@ theorem lib_split_spec (v r : Val) (c : Char) (dedup : Bool) (p : Path) (t : Str
   cases hy
   rfl
 
+
+/-! ### `replace` of one character as a closed model -/
+
+/-- **`text.replace(old, new)` through an independent reading**: it is `new.join(text.split(old))` - the text cut at every `old`,
+the pieces glued with `new` … -/
+theorem replace_eq_join_split (old : Char) (new cs : List Char) :
+    ∃ w ws, splitChars old cs = w :: ws ∧ replaceChars old new cs = joinStr new w ws :=
+  ⟨_, _, rfl, replaceChars_eq_join_split old new cs⟩
+
+/-- … the result holds no `old` (which is why the `while` loop of `_replace` stops after one round), and a text without `old`
+is returned as it is -/
+theorem replace_removes_old (old : Char) (new cs : List Char) (hn : old ∉ new) : old ∉ replaceChars old new cs :=
+  replaceChars_no_old old new hn cs
+
+theorem replace_absent (old : Char) (new cs : List Char) (h : old ∉ cs) : replaceChars old new cs = cs :=
+  replaceChars_absent old new cs h
+
+example : replaceChars ',' "--".toList "a,,b".toList = "a----b".toList := by decide
+
+/-- **`pyg_base.replace` on nested text (closed model: lifting + leaf)**, `old` one character, `new` a string that does not hold
+it: the text leaf at `p` has every `old` replaced; when `new` holds `old` the call raises ValueError as soon as there is a text
+leaf (`lib_replace_raises`) -/
+theorem lib_replace_spec (v r : Val) (c : Char) (n : String) (p : Path) (t : String) (hn : n.toList.contains c = false)
+    (h : libReplace v (String.singleton c) (.cell (.str n)) = .ok r) (hp : v.at p = some (.cell (.str t))) :
+    r.at p = some (.cell (.str (String.ofList (replaceChars c n.toList t.toList)))) := by
+  obtain ⟨y, hy, hr⟩ := two_keyword_companions replaceLeaf "old" "new" (by decide) (by decide) v _ _ r p (.str t) h hp
+  rw [hr]
+  simp only [select_scalar] at hy
+  have hs : (String.singleton c).toList = [c] := String.toList_singleton c
+  simp only [replaceLeaf, hs, hn, Bool.false_eq_true, if_false] at hy
+  cases hy
+  rfl
+
+/-- `new = None` removes the character -/
+theorem lib_replace_none_spec (v r : Val) (c : Char) (p : Path) (t : String)
+    (h : libReplace v (String.singleton c) (.cell .none) = .ok r) (hp : v.at p = some (.cell (.str t))) :
+    r.at p = some (.cell (.str (String.ofList (replaceChars c [] t.toList)))) := by
+  obtain ⟨y, hy, hr⟩ := two_keyword_companions replaceLeaf "old" "new" (by decide) (by decide) v _ _ r p (.str t) h hp
+  rw [hr]
+  simp only [select_scalar] at hy
+  have hs : (String.singleton c).toList = [c] := String.toList_singleton c
+  simp only [replaceLeaf, hs, List.contains_nil, Bool.false_eq_true, if_false] at hy
+  cases hy
+  rfl
+
+/-- "cannot replace indefinitely": with a text leaf anywhere and `new` holding `old` the call does not return -/
+theorem lib_replace_raises (v : Val) (c : Char) (n : String) (p : Path) (t : String) (hn : n.toList.contains c = true)
+    (hp : v.at p = some (.cell (.str t))) : ∀ r, libReplace v (String.singleton c) (.cell (.str n)) ≠ .ok r := by
+  intro r h
+  obtain ⟨y, hy, _⟩ := two_keyword_companions replaceLeaf "old" "new" (by decide) (by decide) v _ _ r p (.str t) h hp
+  simp only [select_scalar] at hy
+  have hs : (String.singleton c).toList = [c] := String.toList_singleton c
+  have hm : c ∈ n.toList := by simpa using hn
+  simp [replaceLeaf, hs, hm] at hy
+
 end Pyg.Props.C19
